@@ -49,7 +49,7 @@ static Ref resolve(const void* ptr, size_t len) {
 }
 static std::string refs(const iovec* iov, long cnt) {
     vt::Arr a;
-    if (cnt < 0 || cnt > 12) { a.raw("[-1,0," + std::to_string(cnt) + "]"); return a.str(); }   // nonsense count
+    if (cnt < 0 || cnt > 64) { a.raw("[-1,0," + std::to_string(cnt) + "]"); return a.str(); }   // nonsense count
     for (long i = 0; i < cnt; i++) { auto r = resolve(iov[i].iov_base, iov[i].iov_len); a.raw(vt::Arr().i(r.b).i(r.o).i(r.n > 100000 ? 100000 : r.n).str()); }
     return a.str();
 }
@@ -286,13 +286,17 @@ int main(int argc, char** argv) {
     bool thorough = !strcmp(vt::arg(argc, argv, "--tier", "quick"), "thorough");
     g_tight = vt::flag(argc, argv, "--tight");
     int maxel = 3, maxlen = thorough ? 3 : 2, oel = thorough ? 3 : 2, olen = 2;
-    long nseq = atol(vt::arg(argc, argv, "--seqs", thorough ? "20000" : "2500"));
+    long nseq = atol(vt::arg(argc, argv, "--seqs", thorough ? "12000" : "2500"));
     std::vector<std::vector<int>> sh, others;
-    shapes(maxel, maxlen, sh); shapes(oel, olen, others);
+    shapes(maxel, maxlen, sh); shapes(2, olen, others);
+    if (oel >= 3) {            // thorough: three-element other vectors with element lengths 0 and 2 only (keeps the trace volume in budget)
+        std::vector<std::vector<int>> o3; shapes(3, olen, o3);
+        for (auto& l : o3) if (l.size() == 3 && std::all_of(l.begin(), l.end(), [](int x) { return x != 1; })) others.push_back(l);
+    }
     // the configurations of IOVector.tla (view; new_iovector with the OwnCfgs) and the stack class IOVector<32,4>
     std::vector<Cfg> cfgs = {{false, 0, 0, 0, false}};
     if (!g_tight) { cfgs.push_back({true, 1, 2, 1000, true}); cfgs.push_back({true, 0, 1, 2, true});
-                    if (thorough) { cfgs.push_back({true, 1, 3, 2, true}); cfgs.push_back({true, 4, 0, 1000, false}); } }
+                    if (thorough) cfgs.push_back({true, 4, 0, 1000, false}); }
     // 1. exhaustive scope: every call on every vector, each on a fresh vector
     if (!g_tight) {
         for (auto& c : cfgs) for (auto& l : sh) {
